@@ -1037,3 +1037,10 @@ end
     )?;
     Ok(())
 }
+
+#[cfg(feature = "verif")]
+pub mod verif_hooks {
+    pub fn make_string_constant(s: &str) -> String {
+        super::make_string_constant(s)
+    }
+}
